@@ -201,9 +201,20 @@ fn oracle(c: &Case, ctx: &mut Ctx) -> CaseResult {
 						compared_after_reorg += 1;
 					}
 				},
-				Err((view, detail)) => {
+				Err((mut view, detail)) => {
 					if view == "harness-tip" {
 						return Err(Failure::new("harness-error", detail));
+					}
+					if view == "pursued-claims/dropped-by-first" {
+						// which claims did the replica that saw more stop pursuing?
+						let missing: Vec<&String> = s.pursued.iter().filter(|p| !s0.pursued.contains(p)).collect();
+						if missing.iter().all(|m| out0.own_commitments.iter().any(|c| m.starts_with(c.as_str()))) {
+							view.push_str(":output-of-own-commitment");
+						}
+						if std::env::var("C11_DEV_TOLERATE").is_ok() {
+							outcome_labels.push(format!("dev-tolerated:{}", view));
+							break;
+						}
 					}
 					if debug {
 						println!("plan of replica {}: {:?}", pi + 1, plan);
